@@ -198,7 +198,7 @@ func (a *Analysis) paramMods(fn *ssa.Function, param int, closed bool, seen map[
 	}
 	symL := a.sym(fn, param)
 	for _, e := range st.effects {
-		if e.Kind == "mod" && e.Target == symL {
+		if (e.Kind == "mod" || e.Kind == "contwrite") && e.Target == symL {
 			if _, ok := out[e.Field]; !ok {
 				out[e.Field] = e
 			}
